@@ -326,6 +326,8 @@ func extractC02() *lean {
 	// validatePresentationSigner: the if-conditions, and whether the credential-less branch mentions the expected subject
 	c3 := conds(val, "validatePresentationSigner")
 	l.def("validateSignerConds", "List String", leanStrList(c3), c3)
+	c4 := conds(val, "validatePresentationAudience")
+	l.def("validateAudienceConds", "List String", leanStrList(c4), c4)
 	emptyChecked := false
 	if fd := funcDecl(val, "validatePresentationSigner"); fd != nil {
 		ast.Inspect(fd, func(n ast.Node) bool {
